@@ -17,23 +17,114 @@ NOT_APPLICABLE = {
             "the parser; no bounded encoding of 'all path sets' fits, a fixed two-path tree would be a unit test with a solver attached"),
     "C15": ("every operation goes through Arc<Vec<Value>> / Arc<AHashMap<FastStr, Value>>; symbolic operation histories over heap-backed "
             "hash maps and vectors are CBMC's documented worst case (a 3-byte SmallVec insert ran out of memory at 30 GB)"),
+    "C16": ("depends on building a parsed arena inside the model checker: DocumentVisitor driven directly by five concrete events did not "
+            "finish in 20 minutes with or without an allocator model, and parse_with_padding(\"[d]\") not in 25 (DESIGN.md section 3); "
+            "without an arena there is no clone/take/drop history to explore, and Kani is sequential, so the cross-thread half is out of "
+            "reach as well"),
     "C19": ("two complete serde data-model implementations (value/ser.rs, value/de.rs) driven by derive code over heap containers; same "
             "reasons as C04 and C15"),
 }
 
-LEVEL_TEXT = {}
-LEVEL_NOTE = {}
+LEVEL_TEXT = {
+    "C17": ("Complete (not merely bounded) equivalence of every vector primitive of every backend file with its lane-wise scalar definition: "
+            "the input spaces are finite and fully symbolic"),
+}
+LEVEL_NOTE = {
+    "C18": ("The schedule is an environment model of the atomic cell (other reader may publish at every atomic step, weak CAS may fail "
+            "spuriously); sequentially consistent; two readers; the decoder is cut to a fixed decoding. " + DEFAULT_LEVEL_NOTE),
+}
 
 DECIDED = {
+    "C01": ("No reference model: the oracle is 'no CBMC property fails' (bounds, pointer validity, overflow with debug semantics, unwrap/"
+            "panic/unreachable, unwinding assertions) on every function of the anchored paths that has unsafe code, indexing, slicing or "
+            "integer subtraction, run on arbitrary input of bounded size. Bounded stack is decided inductively: for the parser "
+            "(m_skip_one_dispatch_n7: nested! hands the nested skipper d-1, restores d, rejects at d == 1 without recursing) and for "
+            "every container entry of the serde deserializer (m_depth_*), one step for all budgets d => nesting <= 254 for every input."),
+    "C02": ("Differential harnesses real scanner vs. RFC 8259 reference recogniser: Ok <=> the reference accepts, and the consumed length "
+            "equals the reference's - strings (scalar path on all buffers <= 8, block path by window), numbers (validating skipper and "
+            "fully-parsing scanner), literals, colon, trailing characters, whitespace; containers inductively (array/object productions "
+            "and value dispatch against an abstract nested recogniser E given as a symbolic table, for every E); the serde seq "
+            "state machine and end_seq/end_map; raw-number capture."),
+    "C03": ("Only the packed node metadata: kind, index-to-header and length survive Meta::pack_dom_node/unpack_dom_node for every "
+            "len and every idx that fits the 29-bit field; the region idx >= 2^29 is known finding F6. The parser->visitor event stream "
+            "and the arena/read API are NOT decided (see outside_the_claim)."),
+    "C05": ("format_string on every byte string <= 6 (8 thorough) equals the specified escaping with exact length and all writes inside the "
+            "6n+35 window; the three escape tables for all 256 bytes; check_cross_page; non-finite floats -> null for every bit pattern; "
+            "the Compound comma/colon/indent machine on a fixed shape (compact and pretty); a writer failing after k bytes makes "
+            "to_writer fail and leaves a prefix."),
+    "C07": ("Integers: every digit string of 1..12, 19 and 20 digits (13..20 thorough) with and without '-' yields the exact u64/i64 "
+            "with the right classification or a float exactly when it does not fit (expected value computed in u128); -0 is the float "
+            "negative zero; grammar and stop index of the fully-parsing scanner on all byte strings <= 7; exponent scanner saturation; "
+            "power-of-ten tables; Clinger fast path for fixed exponents and 20/16-bit significands; SSE simd_str2int == scalar."),
+    "C08": ("Raw numbers: deserialize_rawnumber (bare and quoted) captures exactly the span the number grammar delimits and rejects "
+            "everything else; the validating number skipper == grammar; non-finite floats -> null; the integer clause by reduction: "
+            "every digit string itoa can emit is read back exactly (C07 integer harnesses), itoa's contract trusted."),
+    "C09": ("All code points / surrogates: for every `\\uXXXX` + 6 following bytes (2^80 inputs) both real decoders' escape handlers "
+            "(handle_unicode_codepoint_mut in place, parse_escaped_utf8 + codepoint_to_utf8 copying) produce exactly what UTF-16 "
+            "semantics prescribe, strict and lossy, and consume exactly what they decode; hex and UTF-8 encoders complete; the block "
+            "classifier on all 32-byte blocks; ESCAPED_TAB; the skip-only decoder end to end (scalar <= 8, block path by window); the "
+            "borrowed branch of the borrow-or-copy decoder."),
+    "C10": ("Skippers reduced to contracts, walkers proved against the reference lookup given those contracts: escaped-bit kernels for "
+            "all inputs; one 64-byte step of the bitmap container skipper from an arbitrary carry state (16-byte windows); the "
+            "zero-padded tail on all buffers <= 8; the trusting string skipper on every well-formed literal <= 8; token search; "
+            "checked array/object walkers + final skip == reference lookup (first duplicate wins, span exact, not-found only for a "
+            "missing key/index) for every nested recogniser E; prefix_xor native == fallback."),
+    "C12": ("One step of the lazy array driver from every (first, position) == the array iteration grammar for every element recogniser "
+            "E; the iterator latch: after an error or the end every later call yields None (one step from an arbitrary state)."),
+    "C13": ("Partial: skip_one returns the exact span and escape status (what LazyValue captures); OwnedLazyValue built from raw text of "
+            "every JSON value class (From<LazyValue>, new) reports the same type/bool/null answers and never reaches unreachable!()."),
+    "C14": ("The C02/C10 harnesses read in the other direction: whenever the validating skipper / checked walkers / checked iterator "
+            "driver return Ok(span), the reference accepts exactly that span and everything traversed before it."),
     "C17": ("(a) every vector primitive of every backend file (sse2.rs, v256.rs, v512.rs as selected on this target; avx2.rs and v128.rs "
             "#[path]-included into an external crate) equals its lane-wise scalar definition for all inputs; (b) prefix_xor and "
             "get_nonspace_bits of arch/x86_64.rs equal arch/fallback.rs and the scalar definition on all masks/blocks, simd_str2int of "
             "sonic-number's x86_64 backend equals the fallback under the callers' precondition; (c) the rest of the code is "
             "backend-independent text, so equality of observable results follows by congruence."),
+    "C18": ("Both publish-once caches under every two-reader interleaving at atomic-step granularity, including spurious weak-CAS "
+            "failure: every read returns the one cached decoding (never null/dangling), every decoding ever created ends with no "
+            "outstanding reference (explicit ledger for the Arc<String> cache; CBMC's use-after-free/double-free/dealloc-layout "
+            "checks for both)."),
+    "C20": ("Error::syntax reports offset == index and exactly the line/column of that offset for every input <= 6 and every index, "
+            "without panicking in the snippet window arithmetic; Parser::error clamps to the document length for both readers "
+            "(including a cursor inside the 64-byte padding); classify() yields NotFound only for the four lookup codes; the stream "
+            "deserializer and both lazy iterators latch after an error/end."),
 }
 
 OUTSIDE = {
+    "C01": ["leaks in general (only the C18 ledger counts references)", "parse_string_inplace and the sufficiency of the 64-byte padding "
+            "(symbolic execution does not terminate on its pointer->integer cursor arithmetic)", "the copying decoder's Vec traffic "
+            "(parse_string_escaped)", "DocumentVisitor / arena node buffer (did not fit)", "PointerTree walkers (get_many, get_by_schema)",
+            "carriers Bytes/FastStr/String, from_reader", "the release-only over-read branch of format_string's tail (covered only by "
+            "k_check_cross_page)", "dependencies' internals (simdutf8, bytes, faststr, bumpalo, ahash, itoa, ryu)",
+            "stack *size* per frame (only the nesting bound is decided)"],
+    "C02": ["UTF-8 validation (simdutf8 is a trusted dependency; the deferred-error plumbing is not decided)", "the in-place DOM string decoder "
+            "and the copying decoder's escape branch end to end (kernels only)", "finiteness of floats (C07's float tiers are outside)",
+            "parse_array/parse_object(2) bodies (the DOM drivers; only the validating skipper family and the serde seq machine are decided)",
+            "MapAccess::next_key_seed, enum framing", "inputs whose deciding bytes are farther apart than the window / N"],
+    "C03": ["the parser->visitor event stream", "DocumentVisitor, arena layout, back-pointer header, read API (as_ref2, slices)",
+            "everything but Meta packing: the arena half did not fit in CBMC (DESIGN.md section 3)"],
+    "C05": ["arbitrary value families (derive code is not explored)", "itoa/ryu digit generation", "io::BufWriter and BytesMut writers "
+            "(heap-heavy; not decided by a solver here)", "MapKeySerializer", "strings >= 32 bytes (block path of format_string) in the quick tier",
+            "the release-only over-read branch"],
+    "C07": ["correct rounding of parse_floating_normal_fast (64x64->128 table product), Eisel-Lemire compute_float and the big-decimal "
+            "fallback parse_long_mantissa: halfway cases, > 19 digits, subnormals are NOT covered", "typed narrowing by serde's primitive "
+            "visitors", "the 16-digit SIMD fraction reader inside parse_number_fraction on inputs >= 16 bytes (kernel only: x_num_str2int)"],
+    "C08": ["ryu digit generation and its read-back for f64/f32", "128-bit integers", "Serialize for RawNumber / numeric accessors of RawNumber"],
+    "C09": ["parse_string_inplace loops and padding", "parse_string_escaped / parse_escaped_char (Vec traffic) end to end",
+            "lossy repair of invalid UTF-8 bytes (String::from_utf8_lossy path)", "strings > 40 bytes / more than one interesting window"],
+    "C10": ["unchecked walkers get_from_object/get_from_array end to end (their skippers are decided, the walkers are not)",
+            "escaped keys", "JsonInput::from_subset / slice_ref re-attachment for Bytes/FastStr", "Value::pointer/get, OwnedLazyValue::get",
+            "two interesting windows within one 64-byte block"],
+    "C12": ["parse_entry_lazy (object driver: needs the copying key decoder)", "unchecked iterators vs checked on well-formed input",
+            "carriers"],
+    "C13": ["as_number/child access (whole from_str calls)", "verbatim emission through RawValueStrEmitter", "owned-lazy mutation histories "
+            "(heap vectors)", "as_array/as_object views (fixed by bc7bb48, demonstrated natively, not re-decided by a harness)"],
+    "C14": ["get_many / get_by_schema walkers (PointerTree)", "prefix UTF-8 validation after the walk", "object iterator driver"],
     "C17": ["the neon backend (not this target)", "simdutf8's own runtime dispatch (trusted dependency)",
             "u8::gt is todo!() in sse2.rs/avx2.rs and has no caller",
-            "the congruence step itself (a census of cfg sites is printed, the argument is on paper)"],
+            "the congruence step itself (the argument is on paper)"],
+    "C18": ["memory-ordering adequacy (model is sequentially consistent)", "three or more readers", "leak of a losing Box<Parsed> in "
+            "LazyRaw::load (no reference count to ledger; double free/use-after-free are checked)"],
+    "C20": ["that each specific error site passes the index a user would expect", "make_error/parse_line_col text re-parsing of visitor "
+            "messages", "Display rendering"],
 }
